@@ -58,7 +58,10 @@ impl Key {
 
     pub fn from_rel_link_url(url: &str, relative_to: &str) -> Self {
         let key = url.trim_end_matches(".md").to_string();
-        let path = RelativePath::new(relative_to).join(key).to_string();
+        // normalized: "../a" seen from "b" is "a", not "b/../a" (which no note key ever equals)
+        let path = RelativePath::new(relative_to)
+            .join_normalized(key)
+            .to_string();
         Key {
             relative_path: Arc::new(path),
         }
